@@ -399,6 +399,18 @@ def check_once(case, reuse=False):
         # cross-multiplied comparison: robust next to the pole at z = i*pi
         require(bool(np.all(np.abs(o * (1 + ez) - ez) <= 1e-12 * (1 + np.abs(ez)) * (1 + np.abs(o)))), "sigmoid:value",
                 "sigmoid(z)*(1+e^z) != e^z")
+        if z.ndim >= 2:
+            # the same logical values handed over as non-contiguous views (a transposed view of the transposed copy, swapped axes): the
+            # logical element order is what counts (seeded change C15w)
+            for name, f in (("transposed view", lambda t: t.transpose(0, 1).contiguous().transpose(0, 1)),
+                            ("swapped-axes view", lambda t: t.transpose(0, -1).contiguous().transpose(0, -1))):
+                xv, yv = f(x), f(y)
+                ov = cplx.sigmoid(xv, yv)
+                require(tuple(ov.shape) == (2,) + z.shape, f"sigmoid:shape({name})", f"sigmoid shape {tuple(ov.shape)}")
+                ov = ov.double().numpy()
+                ov = ov[0] + 1j * ov[1]
+                require(bool(np.all(np.abs(ov * (1 + ez) - ez) <= 1e-12 * (1 + np.abs(ez)) * (1 + np.abs(ov)))), f"sigmoid:value({name})",
+                        f"sigmoid of a {name} of the same values: sigmoid(z)*(1+e^z) != e^z")
     elif op == "reject_inner":
         expect_raises(ValueError, lambda: cplx.inner_prod(ta, tb), "inner_prod:accepts-bad-rank", "inner_prod of unsupported ranks")
     elif op == "reject_outer":
